@@ -891,12 +891,19 @@ impl Sh {
 				self.in_flush.set(self.in_flush.get() + 1);
 				let r = tree.verif_flush_one();
 				self.in_flush.set(self.in_flush.get() - 1);
+				// the flush task's body notifies the level task after a successful flush
+				if matches!(r, Ok(true)) {
+					tree.verif_wake_level_task();
+				}
 				self.bg("flush_one", r);
 			}
 			Step::FlushAll => {
 				self.in_flush.set(self.in_flush.get() + 1);
 				let r = tree.verif_flush_all().map(|_| true);
 				self.in_flush.set(self.in_flush.get() - 1);
+				if r.is_ok() {
+					tree.verif_wake_level_task();
+				}
 				self.bg("flush_all", r);
 			}
 			Step::CompactRound => {
